@@ -99,6 +99,11 @@ def run(ctx, replay):
             "conn-mutant-gt", expect=["NeverExceeds", "DecisionExact"])
     vlib.mc(ctx, "ConnLimit", vlib.make_cfg(constants=consts(2, 4, 2, rel=False), invariants=INV, constraint="Ordered"),
             "conn-mutant-norelease", expect=["ModelAgrees", "QuiescentFree", "DecisionExact"])
+    # unbounded histories: IndInv (counter = number of requests inside the handler <= limit) is inductive (Apalache)
+    vlib.apalache(ctx, "ConnLimitInd", "ind-base", "CInit", "Init", "IndInv", 0)
+    vlib.apalache(ctx, "ConnLimitInd", "ind-step", "CInit", "IndInit", "IndInv", 1)
+    vlib.apalache(ctx, "ConnLimitInd", "ind-implies", "CInit", "IndInit", "NeverExceeds", 0)
+    vlib.apalache(ctx, "ConnLimitInd", "ind-step-mutant", "CInitMutant", "IndInit", "IndInv", 1, expect_ok=False)
     # spec -> code: every interleaving of the small model, exhaustively (hist is part of the state, so every path is a state)
     behs = vlib.gen_tlc(ctx, "Gen_Conn", vlib.make_cfg(spec="GSpec", constants=consts(2, 3 if quick else 4, 2, depth=6 if quick else 8),
                                                        invariants=["Emit"]), "gen-conn-exh", workers=4)
